@@ -210,6 +210,7 @@ func propC16(w *World, r *Report) {
 	checkRingMove(w, r, "R5")
 	// ... and only when a frame was accepted: a rejected (half-overwritten) slot must never become "the previous frame"
 	checkRingAdvancesOncePerFrame(w, r, runs, "R5", true, true)
+	checkSinksDistinct(w, r, runs, "R5") // a test recording has a recorder of its own: serving a request never drives the motion recording's file
 	// ... and the request path asks the ring on every request: the frame handed out is the result of a CopyRecent call
 	// made in this very request (a frame remembered from an earlier request may be older than the last completed one)
 	{
